@@ -383,6 +383,17 @@ class StmtMixin:
         r = self.eval_clause(inv.node, inv.globs, ienv)
         self.ex.assume(self.bterm(self.truth_term(r)))
 
+    def run_hint(self, inv, fr, old):
+        if inv.hint is None:
+            return
+        env = dict(old)
+        env.update(fr.env)
+        if fr.yielded is not None:
+            env['yielded'] = fr.yielded
+        params = [a.arg for a in inv.hint_node.args.args]
+        g = dict(inv.hint.__globals__)
+        self.eval_clause(inv.hint_node, g, {p: self.freeze(env[p]) for p in params})
+
     def freeze(self, v):
         """immutable snapshot of a local for use in a contract clause"""
         if isinstance(v, Box):
@@ -418,12 +429,14 @@ class StmtMixin:
             self.assume_invariant(inv, fr, {'done': done, 'rest': rest, 'all': seq})
             x = SV(rest.term[0], ety, oid=('elem', self.ex.fresh_name('x')))
             self.assign(node.target, x, fr)
+            old = {'old_' + k: self.freeze(v) for k, v in fr.env.items()}
             try:
                 self.exec_block(node.body, fr)
             except ContinueSig:
                 pass
             except BreakSig:
                 return      # continues after the loop, skipping else
+            self.run_hint(inv, fr, old)
             ndone = SV(z3.Concat(done.term, z3.Unit(rest.term[0])), seq.ty)
             nrest = SV(z3.SubSeq(rest.term, 1, z3.Length(rest.term) - 1), seq.ty)
             self.check_invariant(inv, fr, {'done': ndone, 'rest': nrest, 'all': seq}, 'preserved', node)
@@ -442,12 +455,16 @@ class StmtMixin:
         tt = self.bterm(self.truth_term(t))
         if which == 0:
             self.ex.assume(tt)
+            old = {'old_' + k: self.freeze(v) for k, v in fr.env.items()}
+            if fr.yielded is not None:
+                old['old_yielded'] = self.freeze(fr.yielded)
             try:
                 self.exec_block(node.body, fr)
             except ContinueSig:
                 pass
             except BreakSig:
                 return
+            self.run_hint(inv, fr, old)
             self.check_invariant(inv, fr, {}, 'preserved', node)
             raise PathCut()
         self.ex.assume(z3.Not(tt))
@@ -535,3 +552,13 @@ class StmtMixin:
         if k != 'symbolic':
             raise Untranslatable(f'comprehension over {k}')
         return self.lift_comprehension(node, g, fr, space, kind)
+
+
+def _load(target):
+    """copy of an assignment target as a load expression"""
+    import copy
+    t = copy.deepcopy(target)
+    for n in ast.walk(t):
+        if hasattr(n, 'ctx'):
+            n.ctx = ast.Load()
+    return t
